@@ -24,7 +24,10 @@ CLAUSES = {
     'float rounding of sqrt and of the sums': 'not modelled; compared with 1e-9 relative tolerance',
 }
 
-POOL = [0, 1, -1, 2, 3, 4, -7, 12, 0.5, -0.25, 1.5, 100.125, 0.1, -0.3, 2.7, 1e9, -1e9, 123456.789, 1e-6, -2e-7, 5e5]
+# includes values whose Python hashes collide (-1/-2, 0/2**61-1): Coordinates are hashable, so hash-based
+# shortcuts are a realistic slip
+POOL = [0, 1, -1, -2, 2, 3, 4, -7, 12, 0.5, -0.25, 1.5, 100.125, 0.1, -0.3, 2.7, 1e9, -1e9, 123456.789, 1e-6, -2e-7,
+        5e5, -1.0, -2.0, 2 ** 61 - 1]
 RADII = [None, 0, 1, 2.5, 40, 1e4, 0.125]
 
 
@@ -93,6 +96,11 @@ def _gen_case(rnd):
         return tuple(rnd.choice(POOL) if rnd.random() < 0.7 else rnd.uniform(-1e4, 1e4) for _ in range(3))
     c1 = coord()
     c2 = c1 if rnd.random() < 0.1 else coord()
+    if rnd.random() < 0.12:
+        # distinct positions whose coordinate-wise Python hashes coincide
+        twin = {-1: -2, -2: -1, 0: 2 ** 61 - 1, 1: 2 ** 61, -1.0: -2.0}
+        c1 = tuple(rnd.choice([-1, -2, 0, 1, 3, -1.0]) for _ in range(3))
+        c2 = tuple(twin.get(v, v) if rnd.random() < 0.6 else v for v in c1)
     p = (0, 0) if rnd.random() < 0.7 else (rnd.randrange(4), rnd.randrange(4))
     return {'p1': p[0], 'p2': p[1], 'c1': c1, 'c2': c2, 'r1': rnd.choice(RADII), 'r2': rnd.choice(RADII),
             'k1': rnd.choice(['ship', 'drone', 'fighter']), 'k2': rnd.choice(['ship', 'drone', 'fighter'])}
